@@ -103,18 +103,18 @@ macro_rules! vk_c15 {
 // VK-assumes: tablets carry empty replica lists (identity via a tag); RandomState::new stubbed (maps stay empty); Arc::drop_slow stubbed (no live Node); tracing stubbed
 // VK-out: TabletsInfo (hashbrown map per table), perform_maintenance, per-DC replica restriction, RawTablet::from_custom_payload range validation
 vk_c15!(c15_add_n0, 0, 4);
-// VK: prop=C15 tier=quick cap=600 stubbed=1 replay=playback
+// VK: prop=C15 tier=thorough cap=3000 stubbed=1 replay=playback
 // VK-funcs: as c15_add_n0
 // VK-bounds: arbitrary pre-state of 1 tablet satisfying the invariant (fully symbolic i64 bounds), symbolic new tablet, symbolic query; unwind 5
 // VK-assumes: as c15_add_n0
 vk_c15!(c15_add_n1, 1, 5);
-// VK: prop=C15 tier=quick cap=900 stubbed=1 replay=playback
+// VK: prop=C15 tier=off cap=3000 stubbed=1 replay=playback
 // VK-funcs: as c15_add_n0
 // VK-bounds: arbitrary pre-state of 2 tablets satisfying the invariant, symbolic new tablet (all overlap relations incl. spanning both, touching at one token, ending at i64::MAX), symbolic query; unwind 6
 // VK-assumes: as c15_add_n0
 // VK-out: a single insert draining 3 or more tablets
 vk_c15!(c15_add_n2, 2, 6);
-// VK: prop=C15 tier=thorough cap=3000 stubbed=1 replay=playback
+// VK: prop=C15 tier=off cap=3000 stubbed=1 replay=playback
 // VK-funcs: as c15_add_n0
 // VK-bounds: arbitrary pre-state of 3 tablets; unwind 7
 // VK-assumes: as c15_add_n0
